@@ -36,6 +36,11 @@ class MemFilestore(VirtualFilestore):
         self.dirs = {MEM_ROOT, "/"}
         self.calls = []
 
+    def __len__(self):
+        # container-like: an empty store is falsy (a legal property of a user-supplied filestore object; code that
+        # tests the object's truth value instead of `is None` would silently fall back to the native filestore)
+        return len(self.files)
+
     # -- helpers for the harness
     def mkdirs(self, p):
         p = PurePosixPath(_k(p))
